@@ -152,6 +152,59 @@ def late_cycle(ctx, forest):
         _expect(ctx, "late-cycle", args, _find(base, args), want, "no entry is evaluated twice and the cycle is diagnosed")
 
 
+def unreadable_directory(ctx, forest):
+    """a directory that cannot be read (unprivileged user, mode 000 / 311): it is an in-range entry like any other, reading it gives one
+    diagnostic - none at the depth bound, where nothing is read - and siblings and later starting points are still processed.  The
+    unfolding is computed as that user (so that listing the directory fails for the reference as it does for find) and walked by the model."""
+    import json
+    import subprocess
+    import sys
+    base = os.path.join(forest.dir, b"ur")
+    for sub in (b"t/locked/deep", b"t/open", b"t/wx", b"u"):
+        os.makedirs(os.path.join(base, sub))
+    for f in (b"t/locked/in", b"t/open/in", b"t/wx/in", b"t/z", b"u/f"):
+        open(os.path.join(base, f), "wb").close()
+    pre = kc.unprivileged(base)
+    if pre is None:
+        ctx.notes.append("unreadable_directory: no unprivileged user available here, scenario skipped")
+        return
+    kc.chown_tree(base)
+    os.chmod(os.path.join(base, b"t", b"locked"), 0)
+    os.chmod(os.path.join(base, b"t", b"wx"), 0o311)
+    code_py = ("import sys, json; sys.path.insert(0, %r); from lib import fstree; t, uf = fstree.unfold(sys.argv[1].encode(), sys.argv[2]); "
+               "print(json.dumps([t, {str(k): v.get('path', b'').decode() for k, v in uf.nodes.items()}]))" % fw.VERIF)
+    try:
+        for roots, extra, mind, maxd, post in (([b"t", b"u"], [], 0, 1000, 0), ([b"t"], ["-depth"], 0, 1000, 1), ([b"t"], ["-maxdepth", "1"], 0, 1, 0),
+                                               ([b"t", b"u"], ["-mindepth", "2"], 2, 1000, 0), ([b"t"], ["-maxdepth", "2", "-depth"], 0, 2, 1)):
+            exp_out, exp_diag = [], 0
+            for r in roots:
+                q = subprocess.run(list(pre) + [sys.executable, "-c", code_py, r.decode(), "P"], stdout=subprocess.PIPE, stderr=subprocess.PIPE, cwd=base, timeout=60)
+                if q.returncode != 0:
+                    ctx.notes.append("unreadable_directory: the unfolding could not be computed as the unprivileged user: %s" % q.stderr.decode()[-200:])
+                    return
+                tree, paths = json.loads(q.stdout)
+                m = fw.run_lines(fw.FUVM, ["walk %d %d %d ~ %s" % (mind, maxd, post, tree)], shards=1)[0]
+                for ev in ([] if m == "~" else m.split(" ")):
+                    ident = ev[1:].split(":")[0]
+                    last = "0" if ident == "r" else ident.split(".")[-1]
+                    if ev[0] == "X":
+                        exp_diag += 1
+                    else:
+                        exp_out.append(paths[last].encode())
+            args = [r.decode() for r in roots] + ["-sorted"] + extra + ["-print0"]
+            code, out, err = _find(base, args, pre)
+            ndiag = len([l for l in err.split(b"\n") if l.startswith(b"Error")])
+            ctx.count(("unreadable-directory", tuple(args)), True, "unreadable-directory")
+            if (code, out, ndiag) != (1 if exp_diag else 0, exp_out, exp_diag):
+                ctx.violation("find %s as an unprivileged user (t/locked mode 000, t/wx mode 311): exit %d, visited %s, %d diagnostic(s); the model on the unfolding that user sees: exit %d, %s, %d"
+                              % (" ".join(args), code, [x.decode() for x in out], ndiag, 1 if exp_diag else 0, [x.decode() for x in exp_out], exp_diag),
+                              {"property": "C02", "kind": "unreadable-directory", "find_args": args, "exit": code, "visited": [x.decode() for x in out],
+                               "diagnostics": ndiag, "expected": [x.decode() for x in exp_out], "expected_diagnostics": exp_diag, "stderr": err.decode("utf-8", "replace")[:300]})
+    finally:
+        os.chmod(os.path.join(base, b"t", b"locked"), 0o755)
+        os.chmod(os.path.join(base, b"t", b"wx"), 0o755)
+
+
 def follow_unopenable(ctx, forest):
     """known finding L-unopenable-link: under -L a link to a directory that cannot be opened is not visited (walkdir opens the target to
     look for a loop and reports the failure without a path)"""
@@ -191,6 +244,7 @@ def run(ctx):
         xdev_entries(ctx, forest)
         late_cycle(ctx, forest)
         follow_unopenable(ctx, forest)
+        unreadable_directory(ctx, forest)
     finally:
         forest.close()
 
